@@ -94,6 +94,7 @@ def make_spec():
               "happy_seen", "scared_seen", "server_error_seen", "unwelcome_seen", "claimed_maybe", "opened_maybe"]:
         g[f] = ("bool", "False")
     g["result_kind"] = ("enum:" + ",".join(RESULT_KINDS), "0")
+    g["queued_delivered"] = ("set[str]", "set()")   # phases already handed over from Order's queue
     g["order_drain_pending"] = ("bool", "False")    # Order.drain has queued messages still to hand to Receive (see order_drain)
     g["close_mood"] = ("enum:none,happy,lonely,scary,errory,unwelcome", "0")
     g["tx_close_mood"] = ("enum:none,happy,lonely,scary,errory,unwelcome", "0")
@@ -450,7 +451,9 @@ def make_reg():
         if m.cls == "Boss":
             flag = {"happy": "happy_seen", "scared": "scared_seen", "rx_error": "server_error_seen",
                     "rx_unwelcome": "unwelcome_seen"}.get(name)
-            if flag:
+            # "seen" means seen while the wormhole was still open: the verdict is fixed by what started the close;
+            # a peer message or server error that shows up after that (the rows ignore it) does not change it
+            if flag and state in ("S0_empty", "S1_lonely", "S2_happy"):
                 g.fields[flag] = VBool(True)
         if m.cls == "Terminator" and name == "close" and args:
             g.fields["close_mood"] = mood_enum(it, args[0])
@@ -755,6 +758,12 @@ def e_order_deliver_queued(eng, it, objs):
     it.ctx.assume(T_(it, objs, "connected"))
     side, phase, body = inp(it, "side", "str"), inp(it, "phase", "str"), inp(it, "body", "bytes")
     it.ctx.assume(phase.z != z3.StringVal("pake"))         # Order queues non-pake messages only
+    # what is in Order's queue went through the Mailbox (so its phase is marked processed) and the queue holds each
+    # phase once (the Mailbox forwards a phase once), so no phase is handed over twice
+    mproc = objs["M"].fields["_processed"]
+    qd = G(objs, "queued_delivered")
+    it.ctx.assume(z3.And(mproc.z[phase.z], z3.Not(qd.z[phase.z])))
+    qd.z = z3.Store(qd.z, phase.z, True)
     setg(objs, "order_drain_pending", VBool(z3.Bool(it.ctx.namer("more_queued"))))
     try:
         call(it, objs["O"], "_deliver", side, phase, body)
